@@ -1401,6 +1401,11 @@ _vbi_cache_foreach_page		(vbi_cache *		ca,
 				--ps;
 
 				if (pgno < 0x100) {
+					/* All pages have been visited and
+					   the callback did not stop us. */
+					if (wrapped)
+						return -1;
+
 					pgno = 0x8FF;
 					ps = cache_network_page_stat(cn, pgno);
 					wrapped = TRUE;
@@ -1412,6 +1417,9 @@ _vbi_cache_foreach_page		(vbi_cache *		ca,
 				++ps;
 
 				if (pgno > 0x8FF) {
+					if (wrapped)
+						return -1;
+
 					pgno = 0x100;
 					ps = cache_network_page_stat(cn, pgno);
 					wrapped = TRUE;
